@@ -278,6 +278,17 @@ func checkC12(c *Ctx) {
 	}
 
 	// R2
+	choiceConsumedRule(c, m, "C12.R2")
+
+	// R3
+	checkNoEffectUnderEnd(c, m, "C12.R3")
+}
+
+
+// choiceConsumedRule: after Options[choice] is read, every path stores to lastStatement before Next returns or recurses.
+func choiceConsumedRule(c *Ctx, m *runnerModel, rule string) {
+	w := c.W
+	info := m.pkg.TypesInfo
 	consumed := 0
 	r2 := evtRule{
 		start: "idle",
@@ -329,17 +340,15 @@ func checkC12(c *Ctx) {
 	}
 	fs := runEVT(w, m.next, r2)
 	if consumed == 0 {
-		c.undecided("C12.R2", "no use of the choice parameter as an index through lastStatement found in Next")
+		c.undecided(rule, "no use of the choice parameter as an index through lastStatement found in Next")
 	} else if len(fs) == 0 {
-		c.ob("C12.R2", m.next.Name+"/choice-consumed", w.Pos(m.next.Decl.Pos()), true, "every path from Options[choice] stores to lastStatement before any return or recursive call")
+		c.ob(rule, m.next.Name+"/choice-consumed", w.Pos(m.next.Decl.Pos()), true, "every path from Options[choice] stores to lastStatement before any return or recursive call")
 	} else {
 		for i, f := range fs {
-			c.ob("C12.R2", m.next.Name+"/choice-consumed#"+itoa(i+1), w.Pos(f.pos), false, f.msg)
+			c.ob(rule, m.next.Name+"/choice-consumed#"+itoa(i+1), w.Pos(f.pos), false, f.msg)
 		}
 	}
 
-	// R3
-	checkNoEffectUnderEnd(c, m, "C12.R3")
 }
 
 // checkNoEffectUnderEnd: automaton state "feasible" = the path is consistent with INV_END so far.
